@@ -302,6 +302,31 @@ Definition ev_trace (reqs : list res) : list cache_st :=
   | r :: rs => ev_add r :: ev_trace_from (ev_add r) rs
   end.
 
+(* updatePod with its guard structure (event_handlers.go 357-372): BEFORE the
+   delete/add round trip there is an early return that keeps the stored task,
+       if sc.allocatedPodInCache(newPod) && newPod.Spec.NodeName == "" { return nil }
+   [keeps prev v] says whether the update from version prev to version v takes an
+   early return; then the state (stored task AND Used) is left unchanged.  Otherwise
+   RemoveTask subtracts the STORED task's request and addPod charges a new TaskInfo
+   computed from v alone. *)
+Fixpoint ev_hist_from {V} (keeps : V -> V -> bool) (req : V -> res) (prev : V) (st : cache_st) (vs : list V)
+    : list cache_st :=
+  match vs with
+  | [] => []
+  | v :: r =>
+    let st' := if keeps prev v then st else ev_update st (req v) in
+    st' :: ev_hist_from keeps req v st' r
+  end.
+Definition ev_hist {V} (keeps : V -> V -> bool) (req : V -> res) (vs : list V) : list cache_st :=
+  match vs with
+  | [] => []
+  | v :: r => ev_add (req v) :: ev_hist_from keeps req v (ev_add (req v)) r
+  end.
+
+(* the guard of the code, for a stored task in an allocated status (Bound /
+   Running: the event family): keep iff the new pod object has no nodeName *)
+Definition code_keeps (a b : list positive * pod_meta * pod) : bool := negb (m_node (snd (fst b))).
+
 (* ================= upstream ================= *)
 
 (* PodResourcesOptions, the fields the scheduler sets; the others are at their
